@@ -5,4 +5,3 @@ package main
 
 
 
-func rulesGrdPkg(c *Ctx, r *Report, rels []string, floor int) {}
